@@ -387,6 +387,17 @@ func checkC11(c any) *ev.Verdict {
 			s := staticStore(ec)
 			return s, func() string { return snapshotStatic(s) }
 		}},
+		// a store that builds a new map for every query (like one backed by a database): every
+		// answer it ever returned must keep the content it had when it was returned
+		{"exact", func() (numscript.Store, func() string) {
+			s := doubles.New(doubles.Exact, hx.Content(ec))
+			return s, func() string {
+				if msg, ok := s.HandedOutIntact(); !ok {
+					return msg
+				}
+				return ""
+			}
+		}},
 	}
 	flags := hx.FlagSet(ec.Flags)
 	runOnce := func(vars map[string]string, store numscript.Store, fl map[string]struct{}) (out hx.Real) {
@@ -503,7 +514,7 @@ func checkC11(c any) *ev.Verdict {
 		if ki == 0 {
 			first = ref
 		} else if fullSummary(first) != fullSummary(ref) {
-			return v.Failf("store-dependence", "shared-map store gives %s, static store gives %s", fullSummary(first), fullSummary(ref))
+			return v.Failf("store-dependence", "shared-map store gives %s, %s store gives %s", fullSummary(first), kind.name, fullSummary(ref))
 		}
 	}
 	outcomeLabel(first, v)
